@@ -16,6 +16,7 @@ func runC09(opt *Options) int {
 			{Name: "K10.contextdebug", Pkg: "method", Harness: "VerifHarness_C09_ContextDebug", Unwind: 32, ReplayTries: 12},
 			{Name: "K10.genmethods", Pkg: "generator", Harness: "VerifHarness_C09_GenMethods", Unwind: 24, ReplayTries: 12},
 			{Name: "K10.contextorder", Pkg: "generator", Harness: "VerifHarness_C09_ContextOrder", Unwind: 24, ReplayTries: 12},
+			{Name: "K10.renderfiles", Pkg: "generator", Harness: "VerifHarness_C09_RenderFiles", Unwind: 64, RecordJen: true, E2E: "c09"},
 			{Name: "K10.validatemethods", Pkg: "generator", Harness: "VerifHarness_C09_ValidateMethods", Unwind: 24, ReplayTries: 12},
 			func() layera.Kernel { k := kernelGenerateConverters("c09"); k.Name = "K8.writefiles"; return k }(),
 			{Name: "K10.extendorder", Pkg: "config", Harness: "VerifHarness_C09_ExtendOrder", Unwind: 24, E2E: "c09", Stub: []string{"(*github.com/jmattheis/goverter/pkgload.PackageLoader).GetMatching"}},
